@@ -330,8 +330,9 @@ func sortedKeys(m map[string]any) []string {
 func sortIntLists(v any) any {
 	switch x := v.(type) {
 	case nil:
-		// an empty Go slice arrives as null through a serializer and as [] in-process
-		return []any{}
+		// an empty Go slice or map arrives as null through a serializer and as [] / {} in-process:
+		// inside answers of meta procedures all three are rendered as null
+		return nil
 	case []any:
 		all := len(x) > 0
 		for i := range x {
@@ -346,11 +347,17 @@ func sortIntLists(v any) any {
 				all = false
 			}
 		}
+		if len(x) == 0 {
+			return nil
+		}
 		if all {
 			sort.SliceStable(x, func(i, j int) bool { return jsonKey(x[i]) < jsonKey(x[j]) })
 		}
 		return x
 	case map[string]any:
+		if len(x) == 0 {
+			return nil
+		}
 		for k, e := range x {
 			x[k] = sortIntLists(e)
 		}
